@@ -253,4 +253,30 @@ theorem dqDeserializeF (fuse : Nat) (s : Store P) (hint : Option Nat) (xs : Arra
     rw [call_dqHeapBuildF _ _ _ (by omega)]
     srcF_cr
     rw [asNew_bind_pure]
+
+/-! ## `Drop for IterMut` of both queues: the rebuild under a panicking comparison -/
+
+/-- `Drop for priority_queue::IterMut` under a panicking comparison = `Crash.MaxQ.heapBuildF` (what `Crash.MaxQ.iterMutDropF`
+runs after the writes) -/
+theorem pqIterMutDropF (fuse : Nat) (s : Store P) (pos : Nat) (fuel : Nat) (h : fuel ≥ s.size + 4) :
+    runF prog unwind fuse false fuel .pqIterMutDrop s [pos] = (fun s' => (s', Val.unit)) <$> Crash.MaxQ.heapBuildF fuse s := by
+  obtain ⟨n, rfl⟩ : ∃ n, fuel = n + 1 := ⟨fuel - 1, by omega⟩
+  rw [runF_frame0 prog unwind fuse false n .pqIterMutDrop _ s _ _ _ rfl rfl]
+  rw [execF, pqIterMutDrop_body]
+  srcF_eval
+  srcF_cr
+  rw [call_pqHeapBuildF _ _ _ (by omega)]
+  srcF_cr
+
+/-- `Drop for double_priority_queue::IterMut` under a panicking comparison = `Crash.DQ.heapBuildF` -/
+theorem dqIterMutDropF (fuse : Nat) (s : Store P) (pos back : Nat) (fuel : Nat) (h : fuel ≥ s.size + 5) :
+    runF prog unwind fuse false fuel .dqIterMutDrop s [pos, back]
+      = (fun s' => (s', Val.unit)) <$> Crash.DQ.heapBuildF fuse s := by
+  obtain ⟨n, rfl⟩ : ∃ n, fuel = n + 1 := ⟨fuel - 1, by omega⟩
+  rw [runF_frame0 prog unwind fuse false n .dqIterMutDrop _ s _ _ _ rfl rfl]
+  rw [execF, dqIterMutDrop_body]
+  srcF_eval
+  srcF_cr
+  rw [call_dqHeapBuildF _ _ _ (by omega)]
+  srcF_cr
 end PQ.SrcEquivF
